@@ -17,6 +17,10 @@ A_DECODE = "A-decode: deserialize_stream (block reader) is assumed to return som
 TB = ["verus 0.2026.09.13 (Z3 back end)", "vx/extract.py rewrite rules R1-R14 (vx/RULES.md)", "rustc / cargo for the native and Kani routes"]
 
 U1 = "u1_state"
+U5 = "u5_lib"
+A_U5 = "U5 restates the failure detector as an opaque type with ghost views (live set, dead set, number of heartbeat reports per member); the three stubs used (report_heartbeat, get_or_create_sampling_window) state what U4 proves / assumes on the real detector"
+A_LRU = "A-lru: lru::LruCache::{peek, pop, push} behave as a map (view); ClusterState::node_state_mut_or_init (BTreeMap Entry API + LruCache::pop) has an assumed contract exercised by the bounded drivers c12_timeline / c18_catchup"
+A_ELIDE = "R11: in the C16 view of process_message the three accepting paths are replaced by an arbitrary effect (havoc); no claim is made about them there"
 U2 = "u2_wire"
 
 N_SVV = {"test": "verif_svv_contract", "pairs": ["NodeState::apply_delta", "NodeState::set", "NodeState::set_with_version", "NodeState::set_with_ttl"]}
@@ -238,12 +242,11 @@ A_STALE = "A-stale: StaleNode::stale_key_values (filter + itertools sort) is ass
 for _p in ("C07", "C03", "C14", "C02"):
     PROPS[_p]["verus"].append({"unit": U2, "fns": ["serialize_stale_nodes", "lemma_prefix_is_ok", "lemma_ok_window", "lemma_ok_entries", "lemma_ok_sorted"]})
     PROPS[_p]["assumptions"].append(A_STALE)
+PROPS["C07"]["verus"].append({"unit": U5, "fns": ["Chitchat::process_message__budget"]})
+PROPS["C07"]["assumptions"] += [A_U5, "C07 budget view of process_message: the calls around the arithmetic (heartbeat reporting, scheduled-for-deletion set, compute_digest, compute_partial_delta_respecting_mtu, process_delta) are stubs; the premise 'own digest leaves >= 100 bytes of room' is the property's own"]
+PROPS["C07"]["level_text"] += " The budget arithmetic of the SYN-ACK and ACK replies (lib.rs) is proved on the extracted process_message: no underflow, DeltaSerializer::with_mtu's assert unreachable, and header (4) + own digest + budget <= 65,507."
 PROPS["C07"]["level_text"] += " The serializer loop of compute_partial_delta_respecting_mtu (sliced mechanically, R10) is proved to write members in the order offered, every member but the last completely and the last one as a prefix of its version-sorted stale entries - i.e. for each member included, exactly the sender's entries in (start, delta max version], ascending and gap-free, so running out of space only drops the highest versions."
 PROPS["C07"]["level_note"] = "For an op larger than the 16 KiB block the hand-derived bound is short by 3 bytes per extra block if every block is incompressible; the proved statement is 'mtu <= 16384 => serialized_len <= mtu' plus the one-block step, and the gap is an unchecked compressibility assumption. The content clause rests on the assumed contract of stale_key_values (A-stale) and of the first loop (which members are offered with which start version: sender_decision is proved, the map iteration and the scheduled-for-deletion filter are not); both are checked on the real function by the bounded driver c07_window; the end-to-end reply length incl. the 4-byte header and own digest by c07_reply_size."
-U5 = "u5_lib"
-A_U5 = "U5 restates the failure detector as an opaque type with ghost views (live set, dead set, number of heartbeat reports per member); the three stubs used (report_heartbeat, get_or_create_sampling_window) state what U4 proves / assumes on the real detector"
-A_LRU = "A-lru: lru::LruCache::{peek, pop, push} behave as a map (view); ClusterState::node_state_mut_or_init (BTreeMap Entry API + LruCache::pop) has an assumed contract exercised by the bounded drivers c12_timeline / c18_catchup"
-A_ELIDE = "R11: in the C16 view of process_message the three accepting paths are replaced by an arbitrary effect (havoc); no claim is made about them there"
 PROPS["C05"]["verus"].append({"unit": U5, "fns": ["Chitchat::report_heartbeat", "Chitchat::self_chitchat_id"]})
 PROPS["C05"]["assumptions"] += [A_U5, A_LRU]
 PROPS["C05"]["level_note"] = "Premise not machine-checked here: every copy's max version and watermark are <= the owner's max version (C03's frontier clause; one incarnation per ChitchatId is the property's own assumption). Chitchat::report_heartbeat is under contract in U5 (a digest entry carrying the local id changes nothing at all); the end-to-end statement over whole messages is additionally exercised by the bounded driver c05_owner."
